@@ -110,6 +110,8 @@ type amlStmt struct {
 	Has  bool      `json:"haselse,omitempty"`
 	W    int       `json:"w,omitempty"`
 	W2   int       `json:"w2,omitempty"`
+	Op   string    `json:"op,omitempty"` // term1 statements
+	V    uint16    `json:"v,omitempty"`  // acquire timeout
 }
 
 type amlFieldElem struct {
@@ -257,6 +259,9 @@ func amlBufLenKind(v uint64) string {
 }
 
 var amlBinOps = map[string]byte{"add": 0x72, "subtract": 0x74, "multiply": 0x77, "shiftleft": 0x79, "shiftright": 0x7a, "and": 0x7b, "nand": 0x7c, "or": 0x7d, "nor": 0x7e, "xor": 0x7f, "mod": 0x85, "concat": 0x73}
+var amlUnOps = map[string][]byte{"not": {0x80}, "findsetleftbit": {0x81}, "findsetrightbit": {0x82}, "tointeger": {0x99}, "tohexstring": {0x98}, "todecimalstring": {0x97}, "tobuffer": {0x96}, "frombcd": {0x5b, 0x28}, "tobcd": {0x5b, 0x29}}
+var amlTerm1Ops = map[string][]byte{"derefof": {0x83}, "sizeof": {0x87}, "objecttype": {0x8e}, "refof": {0x71}, "revision": {0x5b, 0x30}, "timer": {0x5b, 0x33},
+	"sleep": {0x5b, 0x22}, "stall": {0x5b, 0x21}, "release": {0x5b, 0x27}, "reset": {0x5b, 0x26}, "signal": {0x5b, 0x24}, "decrement": {0x76}}
 var amlCmpOps = map[string]byte{"land": 0x90, "lor": 0x91, "lequal": 0x93, "lgreater": 0x94, "lless": 0x95}
 
 func (e amlExpr) encode() []byte {
@@ -289,6 +294,34 @@ func (e amlExpr) encode() []byte {
 		return append(b, e.Args[1].encode()...)
 	case "lnot":
 		return append([]byte{0x92}, e.Args[0].encode()...)
+	case "unop": // (TermArg, Target)
+		b := append([]byte{}, amlUnOps[e.Op]...)
+		b = append(b, e.Args[0].encode()...)
+		if e.Target == nil {
+			return append(b, 0)
+		}
+		return append(b, e.Target.encode()...)
+	case "term1": // (TermArg) or (SuperName)
+		return append(append([]byte{}, amlTerm1Ops[e.Op]...), e.Args[0].encode()...)
+	case "index": // (TermArg, TermArg, Target)
+		b := []byte{0x88}
+		b = append(b, e.Args[0].encode()...)
+		b = append(b, e.Args[1].encode()...)
+		if e.Target == nil {
+			return append(b, 0)
+		}
+		return append(b, e.Target.encode()...)
+	case "divide": // (TermArg, TermArg, Target, Target)
+		b := []byte{0x78}
+		b = append(b, e.Args[0].encode()...)
+		b = append(b, e.Args[1].encode()...)
+		b = append(b, 0) // remainder: null target
+		if e.Target == nil {
+			return append(b, 0)
+		}
+		return append(b, e.Target.encode()...)
+	case "const0": // Revision / Timer
+		return append([]byte{}, amlTerm1Ops[e.Op]...)
 	}
 	panic("amlExpr: bad kind " + e.K)
 }
@@ -323,6 +356,23 @@ func (s amlStmt) encode() []byte {
 	case "while":
 		body := append(s.E.encode(), amlEncodeStmts(s.Body)...)
 		return append([]byte{0xa2}, amlPkg(body, s.W)...)
+	case "noop":
+		return []byte{0xa3}
+	case "break":
+		return []byte{0xa5}
+	case "continue":
+		return []byte{0x9f}
+	case "breakpoint":
+		return []byte{0xcc}
+	case "term1": // Sleep/Stall/Release/Reset/Signal/Decrement (one operand)
+		return append(append([]byte{}, amlTerm1Ops[s.Op]...), s.E.encode()...)
+	case "notify": // (SuperName, TermArg)
+		return append(append([]byte{0x86}, s.T.encode()...), s.E.encode()...)
+	case "acquire": // (SuperName, WordData)
+		b := append([]byte{0x5b, 0x23}, s.T.encode()...)
+		return append(b, byte(s.V), byte(s.V>>8))
+	case "wait": // (SuperName, TermArg)
+		return append(append([]byte{0x5b, 0x25}, s.T.encode()...), s.E.encode()...)
 	}
 	panic("amlStmt: bad kind " + s.K)
 }
